@@ -199,7 +199,23 @@ def nodupB : List Nat → Bool
   | [] => true
   | a :: rest => !rest.contains a && nodupB rest
 
+/-- `threads N K`: N threads create K timers each; the model (`M.Timer.allocThreads`: one atomic counter) hands out
+    pairwise distinct ids for every order of the `fetch_add`s (`Props.C18.ids_unique_across_threads`) -/
+def threadsCase (line : String) : Option (Nat × Nat) :=
+  match line.splitOn " " with
+  | ["threads", n, k] => do pure (← n.toNat?, ← k.toNat?)
+  | _ => none
+
+def modelThreads (n k : Nat) : String :=
+  -- any schedule will do: round robin
+  let sched := (List.range (n * k)).map (· % n)
+  let ids := (M.Timer.allocThreads 1 sched).map (·.2)
+  s!"ids:{if nodupB ids then "ok" else "dup"} n={ids.length}"
+
 def model (line : String) : String :=
+  match threadsCase line with
+  | some (n, k) => modelThreads n k
+  | none =>
   match parseCase line with
   | none => "bad-case"
   | some c =>
@@ -255,6 +271,12 @@ def parseObs (ids : List (Option Nat)) (s : String) : Option (Bool × List Rec) 
 def oracle (line : String) : String :=
   match line.splitOn "\t" with
   | [c, o] =>
+    match threadsCase c with
+    | some (n, k) =>
+      if o == s!"ids:ok n={n * k}" then "ok"
+      else if o.startsWith "ids:dup" then "reject id-not-unique"
+      else "reject malformed-observation"
+    | none =>
     match parseCase c with
     | none => "bad-case"
     | some pc =>
